@@ -78,6 +78,15 @@ func c09History(c *rt.Ctx, fsType string, h int) {
 		_ = v.MkdirAll("/w", 0o755)
 		_ = v.WriteFile("/w/huge", []byte(strings.Repeat("0123456789abcdef", []int{2048, 2500, 4096, 8192}[h%4])), 0o644)
 	}
+	if h%6 == 0 {
+		// the features are advisory flags anybody can set: a base that merely says it is read-only is as writable as
+		// before, and what RoFS hands out (Sub views, files) has to be wrapped all the same
+		for _, v := range []avfs.VFS{base, twin} {
+			if fm, ok := v.(interface{ SetFeatures(avfs.Features) error }); ok {
+				_ = fm.SetFeatures(v.Features() | avfs.FeatReadOnly)
+			}
+		}
+	}
 	ro := rofs.New(base)
 	var under avfs.VFS = ro
 	var ref avfs.VFS = twin
